@@ -83,6 +83,11 @@ add("C08", MC,
     "Trusted: refimpl::frames, simnet. The server application is a single task, so there is no schedule dimension on the server side; the client driver is given time to consume each GOAWAY before the next event.",
     "explicit-state enumeration of operation histories on the implementation (history is the state), invariant oracle on wire log and transport", "bfs", "DESIGN.md 5/C08")
 
+add("C09", MC,
+    "0..N requests, every assignment of ten ways of ending (normal, resolver dropped, FIN/RESET before HEADERS, RESET after HEADERS, malformed, oversized, split halves dropped in either order, still running), the peer's GOAWAY at every position, and every execution with at most k scheduling deviations among accept loop, handlers and script, on a real server connection over simnet. Safety (never None while a handle is live) is checked when None is returned; liveness (None once everything ended) is decided at quiescence of the closed world, which turns 'eventually' into a decidable predicate.",
+    "Trusted: simnet's quiescence. Bound: N=2 (quick) / 3 (thorough), k=2.",
+    "stateless DFS with deviation bounding over schedules of the running implementation; quiescence-based liveness oracle", "dfs", "DESIGN.md 5/C09")
+
 ALL = [f"C{i:02d}" for i in range(1, 21)]
 pending_reason = "check not built yet in this revision of /verif (planned, see DESIGN.md section 5)"
 manifest = dict(
